@@ -12,7 +12,20 @@ DOC_CONFIGS = [None, "segment", "sec_within", "sec_colon_required", "sec_colon_c
                "TRS_desc", "desc_STR", "S_desc_TR", "TR_desc_S", "copy_all", "segment,sec_colon_cautious"]
 
 
+_BEFORE_TR = None
+
+
 def damage(text, rng):
+    global _BEFORE_TR
+    import re
+    if _BEFORE_TR is None:
+        _BEFORE_TR = re.compile(r"(,| of| in) (?=(T\d|Township|Twp|T\. |t\d|\d{1,3}[NS]))")
+    if rng.random() < 0.2:
+        # the wordier connecting phrases between a section and its Twp/Rge ('... Sec 14, all within T154N-R97W')
+        ms = list(_BEFORE_TR.finditer(text))
+        if ms:
+            m = rng.choice(ms)
+            text = text[:m.start()] + rng.choice([" all of ", ", all within ", " lying within ", ", all in "]) + text[m.end():]
     words = text.split(" ")
     r = rng.random()
     if r < 0.2:
